@@ -179,6 +179,11 @@ def _case(draw: Any, args: dict) -> dict:
             ctor["init_attrs"] = ias
         nb = draw(st.sampled_from([0, 0, 1, 2, 3]))
         bases = [["cls", b] for b in bases_pool[:nb]]
+        # an abstract class (direct subclass of abc.ABC): its stub has neither a parameter list nor a superclass list, so
+        # neither the constructor's constructs nor multiple inheritance belong to the class declaration
+        abstract = draw(st.integers(0, 4)) == 0
+        if abstract:
+            bases = [*bases[:1], ["ext", "abc", "ABC"]]
         # generic classes: the bound / the value constraints of a type parameter are written in the class header, so
         # a flagged construct there belongs to the class declaration
         tparams = []
@@ -195,7 +200,7 @@ def _case(draw: Any, args: dict) -> dict:
         if tp0_plain and draw(st.booleans()):
             members.append(gt.func(namer.fresh("me_"), [gt.param(namer.fresh("a"), "pos", ["tvar", tparams[0]["name"]], None)], ret=["tvar", tparams[0]["name"]], kind="method"))
         mperm = draw(st.permutations(range(len(members))))
-        var.append(gt.klass(namer.fresh("Cls"), [members[i] for i in mperm], bases=bases, ctor=ctor, tparams=tparams))
+        var.append(gt.klass(namer.fresh("Cls"), [members[i] for i in mperm], bases=bases, ctor=ctor, tparams=tparams, abstract=abstract))
     order = draw(st.permutations(range(len(var))))
     decls += [var[i] for i in order]
     mod = gt.module([pkgname, "todomod"], decls, pre=["CONST_X = 3", "", "", "def untyped_helper(): ..."])
@@ -255,10 +260,12 @@ def judge(case: dict) -> dict:
         elif d["t"] == "class":
             feats: set[str] = set()
             tags: list[str] = []
-            if d.get("ctor"):
+            if d.get("ctor") and not d.get("abstract"):
                 feats, tags = func_features(d["ctor"], is_ctor=True)
-            if len(d["bases"]) >= 2:
+            if len(d["bases"]) >= 2 and not d.get("abstract"):
                 feats.add("multiple_inheritance")
+            if d.get("abstract"):
+                res["stats"].append("abstract_class" + ("_with_constructor" if d.get("ctor") else ""))
             for tp in d.get("tparams", []):
                 feats |= type_features(tp["bound"])
                 for v in tp["values"]:
